@@ -62,14 +62,20 @@ Proof.
 Qed.
 
 (* ---------- one SAT call on a state with invariant ---------- *)
-Lemma sat_call r P A m : (r < length C)%nat -> 0 < cnt C r -> Inv C P m -> LitsC A ->
+Lemma sat_call_nc r P A m : (r < length C)%nat -> 0 < cnt C r -> Inv C P m ->
+  existsb (makes_unsat d) A = false ->
   snd (sat_propagate d A m (Some r)) = (0 <? cA C (P ++ A) r) /\
   (snd (sat_propagate d A m (Some r)) = true -> Inv C (P ++ A) (fst (sat_propagate d A m (Some r)))).
 Proof.
   intros Hr Hpos HI HA.
-  destruct (call_inv C n HQ P A m (Some r) Hr Hpos HI (no_core A HA)) as [H1 [H2 _]].
+  destruct (call_inv C n HQ P A m (Some r) Hr Hpos HI HA) as [H1 [H2 _]].
   split; assumption.
 Qed.
+
+Lemma sat_call r P A m : (r < length C)%nat -> 0 < cnt C r -> Inv C P m -> LitsC A ->
+  snd (sat_propagate d A m (Some r)) = (0 <? cA C (P ++ A) r) /\
+  (snd (sat_propagate d A m (Some r)) = true -> Inv C (P ++ A) (fst (sat_propagate d A m (Some r)))).
+Proof. intros Hr Hpos HI HA. apply sat_call_nc; auto. now apply no_core. Qed.
 
 Lemma new_state_inv : Inv C [] (new_state d).
 Proof. exact (inv_init C). Qed.
@@ -119,7 +125,8 @@ Proof.
 Qed.
 
 (* the query made on the updated state *)
-Lemma query_spec r W c I : (r < length C)%nat -> incl W (V r) -> CfgOK r W c -> LitsC I ->
+Lemma query_spec_nc r W c I : (r < length C)%nat -> incl W (V r) -> CfgOK r W c ->
+  existsb (makes_unsat d) I = false ->
   let c1 := c_update d r c in
   let res := sat_propagate d I (c_state_of d c1) (Some r) in
   snd res = (0 <? cA C (c_decided c ++ I) r) /\
@@ -129,7 +136,7 @@ Proof.
   destruct (update_spec r W c Hr HW Hok) as [_ [_ [m [fl [P [Hst [HInv [H1 H2]]]]]]]].
   unfold c_state_of. rewrite Hst.
   pose proof (valid_live C n HQ r _ Hr (ok_valid _ _ _ Hok)) as Hpos.
-  destruct (sat_call r P I m Hr Hpos HInv HI) as [Hans Hinv].
+  destruct (sat_call_nc r P I m Hr Hpos HInv HI) as [Hans Hinv].
   assert (Heq : (0 <? cA C (P ++ I) r) = (0 <? cA C (c_decided c ++ I) r)).
   { assert (Hiff : valid r (P ++ I) <-> valid r (c_decided c ++ I)).
     { apply (valid_equiv C n HQ r _ _ Hr); intros l Hl; apply in_app_iff in Hl; apply in_app_iff;
@@ -139,6 +146,13 @@ Proof.
   split; [now rewrite Hans|]. intros Ht. exists (P ++ I). split; [now apply Hinv|].
   split; intros l Hl; apply in_app_iff in Hl; apply in_app_iff; destruct Hl; auto.
 Qed.
+
+Lemma query_spec r W c I : (r < length C)%nat -> incl W (V r) -> CfgOK r W c -> LitsC I ->
+  let c1 := c_update d r c in
+  let res := sat_propagate d I (c_state_of d c1) (Some r) in
+  snd res = (0 <? cA C (c_decided c ++ I) r) /\
+  (snd res = true -> exists P, Inv C P (fst res) /\ incl P (c_decided c ++ I) /\ incl (c_decided c ++ I) P).
+Proof. intros Hr HW Hok HI. apply (query_spec_nc r W c I Hr HW Hok). now apply no_core. Qed.
 
 (* ---------- cover() ---------- *)
 Definition CovL (P : list config) (J : cfg) : Prop := exists c, In c P /\ incl J (c_decided c).
